@@ -218,6 +218,17 @@ def Op.wf {Inp} (e : Est) : Op Inp → Prop
   | .fit _ => True
   | .setParam a _ => a ∈ e.setable
 
+
+/-- Sequential composition of two descriptions: a call that first does what `e₁` describes (e.g. the `fit` of an
+    attribute object, its attributes named with a prefix; or a first phase of `fit`) and then what `e₂` describes.
+    What `e₂` reads of the attributes `e₁` always assigns is no longer read "first". -/
+def Est.seq (e₁ e₂ : Est) : Est :=
+  { name := e₁.name ++ ";" ++ e₂.name, params := e₁.params ++ e₂.params, init := e₁.init ++ e₂.init,
+    readsFirst := e₁.readsFirst ++ e₂.readsFirst.filter (fun a => !(e₁.mustWrite.contains a)),
+    mayWrite := e₁.mayWrite ++ e₂.mayWrite, mustWrite := e₁.mustWrite ++ e₂.mustWrite,
+    deep := e₁.deep ++ e₂.deep, logs := e₁.logs ++ e₂.logs, normalised := [],
+    rng := e₁.rng ++ e₂.rng, subs := e₁.subs ++ e₂.subs, blind := e₁.blind ++ e₂.blind }
+
 /-! ### a tiny executable instance, for tests and witnesses -/
 
 /-- Louvain as pinned, reduced to what matters: the generator position lives in attribute `random_state`
